@@ -593,8 +593,9 @@ func genC10(r *rng, tier string, emit func(string)) {
 		}
 		emit(fmt.Sprintf("chain %s %s,%s,%s%s", strings.Join(cs, ";"), nowS, host, usages, extra))
 	}
-	genC10Parents(r, tier, emit) // directed: renewed CA certificates / key-identifier shadowing, non-CA trust anchors
-	genC10NC(r, tier, emit)      // directed: name-constrained CAs x forms of the requested host (trailing dot, case, IP, [IP], none)
+	genC10Parents(r, tier, emit)      // directed: renewed CA certificates / key-identifier shadowing, non-CA trust anchors
+	genC10NC(r, tier, emit)           // directed: name-constrained CAs x forms of the requested host (trailing dot, case, IP, [IP], none)
+	genC10Fan(newRng(0x66616e), emit) // directed: several valid continuations at every chain length
 }
 
 func (r *rng) pick2(xs []string) string { return xs[r.intn(len(xs))] }
